@@ -84,6 +84,14 @@ CLAIMS = {
              "message numbers and 256 sub-types of 4076 the helpers return None and never raise.",
         note="Trusted: CPython, z3; epoch field per constellation pinned; mask shapes up to 2x2.",
         ref="DESIGN.md section 5 C18", technique=TECH),
+    "C07": dict(
+        text="Bounded symbolic execution of serialize(), RTCMReader.parse() and repr on symbolic payloads: unknown types at the length-field boundaries "
+             "(2..8, 255/256, 511/512, 1023) and every defined identity in directed mode padded to several lengths. Header bytes, payload identity, the CRC trailer "
+             "(big-endian of the code's own CRC over header+payload), parse(serialize(m)) == m term by term, parse(f).serialize() == f for symbolic valid frames "
+             "(trailer via lemma Z'), repr embeds exactly the payload's repr; two-frame histories with equal length and trailer.",
+        note="Trusted: CPython (bytes repr/eval), z3; CRC fold summary keyed on term identity (exact for short messages, C08 lemmas Z/Z' for the trailer); "
+             "lengths not listed are outside the claim.",
+        ref="DESIGN.md section 5 C07", technique=TECH),
 }
 
 NA_REASON = "check under construction in this build round (see DESIGN.md); will be claimed once its harness lands"
